@@ -59,7 +59,14 @@ def gen_proc(rng, nm, types, depth=0, allow_internal=True, kind=None):
     kind = kind or rng.choice(["subroutine", "function"])
     p = {"kind": kind, "name": nm.fresh("p" if kind == "subroutine" else "f"),
          "args": [], "doc": rng.random() < 0.8, "locals": [], "internal": [], "calls": [],
-         "perm": None, "namelist": None, "common": None, "localtype": None, "localiface": None, "uses": []}
+         "perm": None, "namelist": None, "common": None, "localtype": None, "localiface": None, "uses": [],
+         # round 6: a function may declare its result: a name (`result(r)`) and / or a type, intrinsic or derived
+         "result": None, "rtype": None}
+    if kind == "function":
+        if rng.random() < 0.3:
+            p["result"] = nm.fresh("r")
+        if rng.random() < 0.4:
+            p["rtype"] = rng.choice(types) if types and rng.random() < 0.7 else "integer"
     for _ in range(rng.randint(0, 3)):
         a = {"name": nm.fresh("a"), "doc": rng.random() < 0.5, "type": None}
         if types and rng.random() < 0.3:
@@ -670,7 +677,7 @@ def _decl(v):
 def render_proc(cx, p, ind, in_iface=False, prefix=""):
     L = []
     args = ", ".join(a["name"] for a in p["args"])
-    head = f"{prefix}{p['kind']} {p['name']}({args})"
+    head = f"{prefix}{p['kind']} {p['name']}({args})" + (f" result({p['result']})" if p.get("result") else "")
     L.append(ind + head)
     L += cx.doc(p["doc"], f"procedure {p['name']}", ind + "  ")
     for u in p.get("uses", []):
@@ -694,8 +701,9 @@ def render_proc(cx, p, ind, in_iface=False, prefix=""):
     for a in p["args"]:
         L.append(f"{ind}  {_decl(a)} :: {a['name']}")
         L += cx.doc(a["doc"], f"argument {a['name']}", ind + "    ")
-    if p["kind"] == "function":
-        pass
+    if p["kind"] == "function" and p.get("rtype"):
+        rt = p["rtype"] if p["rtype"] == "integer" else f"type({p['rtype']})"
+        L.append(f"{ind}  {rt} :: {p.get('result') or p['name']}")
     for v in p["locals"]:
         L.append(f"{ind}  {_decl(v)} :: {v['name']}")
         L += cx.doc(v["doc"], f"local {v['name']}", ind + "    ")
@@ -709,8 +717,8 @@ def render_proc(cx, p, ind, in_iface=False, prefix=""):
         L.append(f"{ind}  namelist /{n['name']}/ {', '.join(n['vars'])}")
         L += cx.doc(n["doc"], f"namelist {n['name']}", ind + "    ")
     if not in_iface:
-        if p["kind"] == "function":
-            L.append(f"{ind}  {p['name']} = 1")
+        if p["kind"] == "function" and p.get("rtype") in (None, "integer"):
+            L.append(f"{ind}  {p.get('result') or p['name']} = 1")
         for c in p["calls"]:
             L.append(f"{ind}  call {c}()")
         for q in p["internal"]:
